@@ -42,6 +42,8 @@ CHECKS = {
     'include/a/mf.h': ['C13'],
     # the Rust binding (not compiled by the repository's ctest suite, so every mutant reaches the check)
     'src/lib.rs': ['C20'],
+    # the umbrella header: integer helpers (C19), A_SAT / A_ABS / A_MIN / A_MAX and the size macros used by the containers and controllers
+    'include/a/a.h': ['C19', 'C12', 'C04', 'C06', 'C05'], 'include/a/math.h': ['C11', 'C19'],
 }
 
 REL = [('<=', '<'), ('>=', '>'), ('<', '<='), ('>', '>='), ('==', '!='), ('!=', '==')]
